@@ -1,4 +1,5 @@
 import Mochi.Model.Broker
+import Mochi.Lemmas.BrokerQosDelivery
 /-!
 # C04 — Delivered QoS, subscription identifiers and retain flag follow the options
 
@@ -57,3 +58,38 @@ example : (shapeOut {} 5 { filter := [97], qos := 1, rap := true } false { qos :
 example : (shapeOut {} 4 { filter := [97], qos := 1, rap := true } false { qos := 2, retain := true }).retain = false := by decide
 
 end Mochi.Broker
+
+/-! ## The copy that is actually WRITTEN at QoS > 0 carries the shaped QoS, retain flag and identifiers
+
+`Q1.Live`, `Q1.verdict`, `Q1.copyOf`: `Mochi/Lemmas/BrokerQosDelivery.lean`; the classification itself is
+`publishToClientCore_qos_shape` (`Props/C10.lean`). -/
+namespace Mochi.Broker
+open Mochi.Topics
+
+/-- **Item 2.**  In case (d) of a delivery of QoS > 0 (`Q1.verdict s i = .sent pid`) to a live network client without
+    outbound aliases, the ONE packet written is a PUBLISH whose QoS is `min (min pk.qos sub.qos) maximumQos`
+    (`C04_qos`), whose retain flag and subscription identifiers are those of `shapeOut` (`C04_retain_flag`,
+    `C04_subids`), with `dup = false`, the allocated identifier, topic and payload of the message. -/
+theorem C04_delivered_qos_exact (s : Server) (i : Nat) (sub : Sub) (pk : Msg) (h : Q1.Live s i) (ht : pk.type = 3)
+    (hq : shapeQos s.caps sub pk.qos > 0) (pid : Nat) (hv : Q1.verdict s i = .sent pid) :
+    ∃ m me, (publishToClientCore s i sub false pk).2 = [.wrote (getObj s i).conn (.publish (getObj s i).ver m me)] ∧
+      m.qos = min (min pk.qos sub.qos) s.caps.maximumQos ∧
+      m.retain = (shapeOut s.caps (getObj s i).ver sub false pk).retain ∧
+      m.retain = shapeRetain (getObj s i).ver sub false pk.retain ∧
+      m.subIds = shapeSubIds sub ∧
+      m.dup = false ∧ m.id = pid ∧ m.topic = pk.topic ∧ m.payload = pk.payload ∧ m.type = 3 := by
+  have e := Q1.core_eq s i sub pk h ht hq
+  unfold Q1.coreResult at e
+  rw [hv] at e
+  refine ⟨Q1.copyOf s i sub pk pid, _, by rw [e]; rfl, ?_, rfl, rfl, rfl, rfl, rfl, rfl, rfl, ht⟩
+  exact C04_qos s.caps (getObj s i).ver sub false pk
+
+/-- with an MQTT version ≤ 5 the retain flag of that copy is `ver = 5 ∧ rap ∧ pk.retain` -/
+theorem C04_delivered_retain_exact (s : Server) (i : Nat) (sub : Sub) (pk : Msg) (pid : Nat)
+    (hver : (getObj s i).ver ≤ 5) :
+    (Q1.copyOf s i sub pk pid).retain = (decide ((getObj s i).ver = 5) && sub.rap && pk.retain) :=
+  C04_retain_flag s.caps (getObj s i).ver hver sub pk
+
+end Mochi.Broker
+
+#print axioms Mochi.Broker.C04_delivered_qos_exact
